@@ -28,6 +28,20 @@ pub struct FacebookScopeMapping {
 // See the decoder in `hermes.rs` for details.
 pub type FacebookSources = Option<Vec<Option<Vec<FacebookScopeMapping>>>>;
 
+/// Writes a debug id in a form that `DebugId` parses again: its `Display` drops the age of a
+/// PDB 2.0 identifier when that is zero, which leaves eight digits that are not a valid id.
+fn serialize_debug_id<S: serde::Serializer>(
+    debug_id: &Option<DebugId>,
+    serializer: S,
+) -> Result<S::Ok, S::Error> {
+    match debug_id {
+        Some(id) if id.is_pdb20() && id.appendix() == 0 => {
+            serializer.serialize_str(&id.breakpad().to_string())
+        }
+        other => other.serialize(serializer),
+    }
+}
+
 #[derive(Serialize, Deserialize)]
 pub struct RawSourceMap {
     pub version: Option<u32>,
@@ -54,7 +68,10 @@ pub struct RawSourceMap {
     pub x_metro_module_paths: Option<Vec<String>>,
     #[serde(skip_serializing_if = "Option::is_none")]
     pub x_facebook_sources: FacebookSources,
-    #[serde(skip_serializing_if = "Option::is_none")]
+    #[serde(
+        skip_serializing_if = "Option::is_none",
+        serialize_with = "serialize_debug_id"
+    )]
     pub debug_id: Option<DebugId>,
     // This field only exists to be able to deserialize from "debugId" keys
     // if "debug_id" is unset.
